@@ -131,6 +131,9 @@ def basecase(fn_zeroth_deriv, domain=DOM_ALL, extras=0):
             if n < 0:
                 raise ValueError('n must be a nonnegative integer')
             if n:
+                # the closed forms take negative powers of x: an integer typed x is evaluated as float
+                if args and np.asarray(args[-1]).dtype.kind in 'iub':
+                    args = args[:-1] + (np.asarray(args[-1], dtype=float)[()],)
                 return f(*args, out=out, n=n)
             elif out is None:
                 return fn_zeroth_deriv(*args)
